@@ -432,6 +432,13 @@ def r12_7(ctx, rc):
     r9_6(ctx, rc)
 
 
+def r12_8(ctx, rc):
+    """The cache file of the last committed build survives a failed write
+    of the next one (R2.9): without it clean has nothing to go by."""
+    from .c02 import r2_9
+    r2_9(ctx, rc)
+
+
 RULES = [
     ('R12.1', 'what clean can touch', r12_1),
     ('R12.2', 'nothing before validation, nothing without a cache file',
@@ -445,4 +452,5 @@ RULES = [
     ('R12.5', 'clean/commit/rollback agree on the removal discipline', r12_5),
     ('R12.6', 'directory bookkeeping is seeded and re-registered', r12_6),
     ('R12.7', 'a concurrently created directory keeps an owner', r12_7),
+    ('R12.8', 'a failed cache write keeps the previous cache file', r12_8),
 ]
